@@ -249,3 +249,59 @@ def check_c17(tier, t0):
 
 
 CHECKS["C17"] = check_c17
+
+
+# ------------------------------------------------------------------------------------------------
+# C12  dispatch
+# ------------------------------------------------------------------------------------------------
+def gen_walks(wd, tier):
+    """Unmutated layout walks from MessageParse (used as valid bodies by C12, C08, C13)."""
+    from common import run_tlc, tlc_require_clean, extract_json_lines
+    cfg = "MC_MessageParse_walks_thorough.cfg" if tier == "thorough" else "MC_MessageParse_walks.cfg"
+    mc = run_tlc("MC_MessageParse.tla", cfg, wd, timeout=2400)
+    if mc["violated"]:
+        raise ToolError("design-level invariant %s violated in MessageParse" % mc["violated"])
+    tlc_require_clean(mc, "MessageParse walks")
+    walks = os.path.join(wd, "walks.ndjson")
+    n = extract_json_lines(mc["out_path"], walks)
+    os.remove(mc["out_path"])
+    return walks, n, mc
+
+
+def check_c12(tier, t0):
+    from common import run_tlc, tlc_require_clean, extract_json_lines, workdir
+    wd = workdir("C12-%s" % tier)
+    mc = run_tlc("Dispatch.tla", "Dispatch.cfg", wd, timeout=900)
+    if mc["violated"]:
+        raise ToolError("design-level invariant %s violated in Dispatch.tla" % mc["violated"])
+    tlc_require_clean(mc, "Dispatch")
+    cases = os.path.join(wd, "cases.ndjson")
+    n = extract_json_lines(mc["out_path"], cases)
+    os.remove(mc["out_path"])
+    walks, nw, mcw = gen_walks(wd, tier)
+    out = os.path.join(wd, "out.json")
+    run_harness(["dispatch", "--cases", cases, "--walks", walks, "--out", out])
+    s = json.load(open(out))
+    log("[C12] %d (entry point, announced, requested) cases, %d diagonal walks through 5 entry points, %d mismatches" %
+        (s["evaluated"], s["diagonal_walks"], len(s["violations"])))
+    if s["types_without_body"]:
+        raise ToolError("no accepted body for types %s (C03 matter) -- dispatch cannot be exercised for them" % s["types_without_body"])
+    cov = {
+        "states": mc["distinct"] + mcw["distinct"], "transitions": mc["generated"] + mcw["generated"],
+        "traces_validated_against_impl": 0,
+        "evaluations": s["evaluated"] + 5 * s["diagonal_walks"],
+        "distinct_nontrivial": s["evaluated"] - 30,
+        "rule": "all 1000 announced codes x 6 entry points (typed: x 30 requested types, each with a body of the announced and of the "
+                "requested type); plus every unmutated layout walk (<= K optional items / all items, every option) along the diagonal "
+                "through auto, wrapper, parse_mt, validate_mt, publish_mt compared with the typed API; non-trivial = every case "
+                "except the 30 typed diagonal entries",
+        "samples": s["samples"] or [{}],
+        "diagonal_walks": s["diagonal_walks"],
+        "exhaustive": True, "exhaustive_scope": "the (entry point, announced code, requested type) table; the diagonal is bounded by the walk generator",
+    }
+    assumptions = ["differential oracle: the typed API of the announced type is the reference for the other entry points",
+                   "unsupported = an error whose text says 'unsupported'; mismatch = error T03 / 'mismatch'"]
+    return report("C12", tier, "model_checking", s["violations"], cov, assumptions, t0)
+
+
+CHECKS["C12"] = check_c12
